@@ -139,6 +139,9 @@ class Atoms:
             return ('lit', 'P', True)
         if isinstance(e, ast.Name):
             return ('lit', 'N:' + e.id, True)
+        if isinstance(e, ast.Call) and isinstance(e.func, ast.Name) and e.func.id in ('bool', 'len') and len(e.args) == 1 and isinstance(e.args[0], ast.Name) \
+                and not e.keywords:
+            return ('lit', 'N:' + e.args[0].id, True)       # bool(xs) / len(xs) as a truth value: xs is non-empty
         if isinstance(e, ast.Call) and isinstance(e.func, ast.Name) and e.func.id in self.bool_summaries \
                 and not e.args:
             return self.bool_summaries[e.func.id]
@@ -430,7 +433,7 @@ def _stable_list_local(loop, name):
                 pass
             elif isinstance(par, ast.BoolOp):
                 pass
-            elif isinstance(par, ast.Call) and isinstance(par.func, ast.Name) and par.func.id == 'len' and par.args == [n]:
+            elif isinstance(par, ast.Call) and isinstance(par.func, ast.Name) and par.func.id in ('len', 'bool') and par.args == [n]:
                 pass
             elif isinstance(par, ast.Return) or (isinstance(par, ast.Tuple) and isinstance(getattr(par, 'parent', None), ast.Return)):
                 pass
